@@ -2,7 +2,7 @@ SPECIFICATION MCSpec
 CONSTANTS
   Tokens <- TokensCore
   MaxArgs = 4
-  Cfgs = {1, 2, 3}
+  Cfgs = {1, 2}
   Switch = FALSE
   GenDepth = 0
 INVARIANTS TypeOK OptindBound ConsumedPrefix RefsConsumed EndIffExhausted Determined
